@@ -1,31 +1,90 @@
-"""apply each behaviour-preserving refactoring written by the refactor sub-agents to /repo, run every property's check, undo;
-report every non-zero exit (a false alarm)"""
-import glob, json, os, subprocess, sys
+"""behaviour-preserving refactorings written by independent sub-agents: every check must stay silent on each of them
+
+  try_refactors.py intake   copy /tmp/wt/out/R<id>/refactor_<k>.diff (+ notes) into /verif/refactors/<id>_<k>/ (only those
+                            listed as confirmed in /tmp/wt/confirm/R<id>_<k>.json: applies, whole suite passes)
+  try_refactors.py [ids]    apply each kept refactoring to /repo, run every property's quick check, undo; any non-zero
+                            exit is a false alarm (exit 1) or an unabsorbed shape (exit 2); writes refactors/README.md
+"""
+import glob
+import json
+import os
+import shutil
+import subprocess
+import sys
+from concurrent.futures import ThreadPoolExecutor
+
 ROOT = os.path.dirname(os.path.dirname(os.path.abspath(__file__)))
 PY = "/venv/bin/python"
+RDIR = os.path.join(ROOT, "refactors")
 props = [json.loads(l)["id"] for l in open(os.path.join(ROOT, "properties.jsonl"))]
 claimed = [p for p in props if os.path.exists(os.path.join(ROOT, "sa", "rules", p.lower() + ".py"))]
-only = sys.argv[1:] 
-assert subprocess.run(["git", "-C", "/repo", "status", "--porcelain"], capture_output=True, text=True).stdout.strip() == ""
-res = {}
-for d in sorted(glob.glob("/tmp/wt/out/R*/refactor_*.diff")):
-    key = d.split("/")[-2] + "_" + d.split("_")[-1].split(".")[0]
-    if only and not any(key.startswith(o) for o in only):
-        continue
-    a = subprocess.run(["git", "-C", "/repo", "apply", d], capture_output=True, text=True)
-    if a.returncode != 0:
-        print(key, "DOES NOT APPLY", a.stderr[:100]); continue
-    try:
-        bad = {}
-        for p in claimed:
-            r = subprocess.run([PY, "-m", "sa.check", "--property", p, "--evidence-dir", "/tmp/.ref_ev"], cwd=ROOT, capture_output=True, text=True)
-            if r.returncode != 0:
-                rules = sorted({ln.split("rule=")[1].split()[0] for ln in r.stdout.splitlines() if "rule=" in ln})
-                bad[p] = (r.returncode, rules)
-        res[key] = bad
-        print(key, "OK" if not bad else f"FALSE ALARM {bad}")
-    finally:
-        subprocess.run(["git", "-C", "/repo", "checkout", "--", "."], check=True)
-json.dump(res, open("/tmp/wt/refactor_results.json", "w"), indent=1)
-n_bad = sum(1 for v in res.values() if v)
-print(f"{len(res)} refactorings tried, {n_bad} raise an alarm")
+
+
+def run_check(p: str):
+    r = subprocess.run([PY, "-m", "sa.check", "--property", p, "--evidence-dir", f"/tmp/.ref_ev/{p}"], cwd=ROOT, capture_output=True, text=True)
+    rules = sorted({ln.split("rule=")[1].split()[0] for ln in r.stdout.splitlines() if "rule=" in ln})
+    return r.returncode, rules
+
+
+def intake() -> None:
+    for cf in sorted(glob.glob("/tmp/wt/confirm/RC*_*.json")):
+        c = json.load(open(cf))
+        key = f"{c['id'][1:]}_{c['k']}"
+        d = os.path.join(RDIR, key)
+        if os.path.exists(d):
+            continue
+        if not (c["apply_exit"] == 0 and c["suite_exit"] == 0 and "3199 passed" in c["suite_summary"]):
+            print("NOT CONFIRMED", key, c)
+            continue
+        os.makedirs(d)
+        shutil.copy(f"/tmp/wt/out/{c['id']}/refactor_{c['k']}.diff", os.path.join(d, "patch.diff"))
+        n = f"/tmp/wt/out/{c['id']}/notes_{c['k']}.md"
+        if os.path.exists(n):
+            shutil.copy(n, os.path.join(d, "notes.md"))
+        json.dump({"id": key, "anchored_in_property": c["id"][1:], "confirmed_by_me": {
+            "how": "tools/confirm_refactor.sh: fresh scratch worktree, git apply, whole suite", "suite_with_change": c["suite_summary"],
+            "diffstat": c["diffstat"]}}, open(os.path.join(d, "meta.json"), "w"), indent=1)
+        print("INTAKE", key)
+
+
+def main(only: list[str]) -> int:
+    assert subprocess.run(["git", "-C", "/repo", "status", "--porcelain"], capture_output=True, text=True).stdout.strip() == ""
+    rows = []
+    for d in sorted(glob.glob(os.path.join(RDIR, "C*_*"))):
+        key = os.path.basename(d)
+        mf = os.path.join(d, "meta.json")
+        meta = json.load(open(mf))
+        if not only or any(key.startswith(o) for o in only):
+            a = subprocess.run(["git", "-C", "/repo", "apply", os.path.join(d, "patch.diff")], capture_output=True, text=True)
+            if a.returncode != 0:
+                print(key, "DOES NOT APPLY", a.stderr[:100])
+                continue
+            try:
+                with ThreadPoolExecutor(8) as ex:
+                    res = dict(zip(claimed, ex.map(run_check, claimed)))
+            finally:
+                subprocess.run(["git", "-C", "/repo", "checkout", "--", "."], check=True)
+            bad = {p: {"exit": c, "rules": r} for p, (c, r) in res.items() if c != 0}
+            meta["checks_raising"] = bad
+            json.dump(meta, open(mf, "w"), indent=1)
+            print(key, "OK" if not bad else f"ALARM {bad}")
+        rows.append((key, meta.get("checks_raising")))
+    with open(os.path.join(RDIR, "README.md"), "w") as f:
+        f.write("# Behaviour-preserving refactorings (written by independent sub-agents; whole suite passes with each)\n\n"
+                "Every check is expected to exit 0 with the refactoring applied to /repo.  Exit 1 = false alarm, exit 2 = a shape the\n"
+                "extractors do not absorb (reported as analysis-broken, not as a violation).\n\n| refactoring | checks not exiting 0 |\n|---|---|\n")
+        for key, bad in rows:
+            txt = "not run" if bad is None else ("-" if not bad else "; ".join(f"{p} exit {v['exit']} ({', '.join(v['rules'])})" for p, v in bad.items()))
+            f.write(f"| {key} | {txt} |\n")
+        n1 = sum(1 for _, b in rows if b and any(v["exit"] == 1 for v in b.values()))
+        n2 = sum(1 for _, b in rows if b and not any(v["exit"] == 1 for v in b.values()))
+        f.write(f"\n{len(rows)} refactorings; {n1} raise a false alarm (exit 1), {n2} more are reported as analysis-broken (exit 2).\n")
+    shutil.rmtree("/tmp/.ref_ev", ignore_errors=True)
+    return 0
+
+
+if __name__ == "__main__":
+    if sys.argv[1:2] == ["intake"]:
+        intake()
+        sys.exit(0)
+    sys.exit(main(sys.argv[1:]))
